@@ -44,9 +44,9 @@ def stmtOf (s : Str) : Option Stmt :=
   | [['A'], [a], ns] => some (.access (attrOf a) (names ns))
   | [['V'], ns, as] => some (.var (names ns) (as.map attrOf))
   | [['T'], n, as, body] => (bodyOf body).map (.typeDef n (as.map attrOf))
-  | [['I'], ['g'], n, ps] => some (.iface .generic n (names ps))
-  | [['I'], ['a'], n, ps] => some (.iface .abstract n (names ps))
-  | [['I'], ['p'], n, ps] => some (.iface .plain n (names ps))
+  | [['I'], ['g'], n, ps, rs] => some (.iface .generic n (names ps) (names rs))
+  | [['I'], ['a'], n, ps, rs] => some (.iface .abstract n (names ps) (names rs))
+  | [['I'], ['p'], n, ps, rs] => some (.iface .plain n (names ps) (names rs))
   | [['S'], n] => some (.proc false n)
   | [['F'], n] => some (.proc true n)
   | [['K']] => some .contains
@@ -60,9 +60,20 @@ def showEnt (e : Ent) : List Str :=
   ++ e.comps.map (fun k => colon [['C'], e.name, k.name, permName k.perm])
   ++ e.binds.map (fun k => colon [['N'], e.name, k.name, permName k.perm])
   ++ e.procs.map (fun k => colon [['P'], e.name, k.name, permName k.perm])
+  ++ e.refs.map (fun k => colon [['R'], e.name, k.name, permName k.perm])
+
+def tabName : Tab → Str
+  | .procs => "procs".toList | .vars => "vars".toList | .types => "types".toList | .absints => "absints".toList
 
 def showOut (o : Out) : List Str :=
   o.ents.flatMap showEnt ++ o.publicList.map (fun n => colon [['L'], n])
+  ++ o.exports.map (fun x => colon [['X'], tabName x.1, x.2])
+
+/-- variant field: `p`/`a` = attr_dict entry deleted per entity / after the loop, followed by `e` when the
+    constructor takes its type's permission before the export tables are built and by `s` when process_attribs
+    has a loop over the interface bodies of generic interfaces -/
+def variantOf (s : Str) : Variant :=
+  ⟨if s.contains 'a' then .afterLoop else .perEntity, s.contains 'e', s.contains 's'⟩
 
 end C04D
 
@@ -70,11 +81,11 @@ open C04D in
 def dispatchC04 : List Str → Option (List Str)
   | cmd :: args =>
     if cmd == "c04.run".toList then
-      -- c04.run <m|s> stmt*
+      -- c04.run <variant> <m|s> stmt*
       match args with
-      | scope :: stmts =>
+      | v :: scope :: stmts =>
         match stmts.mapM stmtOf with
-        | some ss => some ("ok".toList :: showOut (runUnit (scope == ['s']) ss))
+        | some ss => some ("ok".toList :: showOut (runUnit (variantOf v) (scope == ['s']) ss))
         | none => some ["bad-request".toList]
       | _ => some ["bad-request".toList]
     else if cmd == "c04.spec".toList then
